@@ -495,6 +495,58 @@ theorem wl_pollRecv (x : Ctx) : WL (Fine.pollRecv x) false := by
 
 /-! ### all programs; serializability in terms of `ChanStep` -/
 
+/-! ### `Act.bind` with a continuation that takes no lock (`ReceiveStream::poll_next` around the future's `poll`) -/
+
+theorem sec_bind {f : Res → Act} (hf : ∀ r cur b p, ¬ Sec (f r) cur b p) :
+    ∀ (a : Act) (cur : Option Chan) (b p : Chan), Sec (a.bind f) cur b p → Sec a cur b p := by
+  intro a
+  induction a with
+  | ret r => intro cur b p h; exact absurd h (hf r cur b p)
+  | diverge => intro cur b p h; simp [Act.bind] at h
+  | lock k ih =>
+    intro cur b p h
+    cases cur with
+    | none => simp only [Act.bind, sec_lock] at h ⊢; obtain ⟨b', h⟩ := h; exact ⟨b', ih _ _ _ _ h⟩
+    | some c0 => simp [Act.bind] at h
+  | tryLock k ih =>
+    intro cur b p h
+    cases cur with
+    | none =>
+      simp only [Act.bind, sec_tryLock] at h ⊢
+      rcases h with ⟨b', h⟩ | h
+      · exact Or.inl ⟨b', ih _ _ _ _ h⟩
+      · exact Or.inr (ih _ _ _ _ h)
+    | some c0 => simp [Act.bind] at h
+  | unlock c k ih =>
+    intro cur b p h
+    cases cur with
+    | none => simp [Act.bind] at h
+    | some c0 =>
+      simp only [Act.bind, sec_unlock] at h ⊢
+      rcases h with h | h
+      · exact Or.inl h
+      · exact Or.inr (ih _ _ _ h)
+  | eff e k ih => intro cur b p h; simp only [Act.bind, sec_eff] at h ⊢; exact ih _ _ _ h
+  | askB q k ih => intro cur b p h; simp only [Act.bind, sec_askB] at h ⊢; obtain ⟨x, h⟩ := h; exact ⟨x, ih _ _ _ _ h⟩
+  | askM q k ih => intro cur b p h; simp only [Act.bind, sec_askM] at h ⊢; obtain ⟨x, h⟩ := h; exact ⟨x, ih _ _ _ _ h⟩
+  | askP k ih => intro cur b p h; simp only [Act.bind, sec_askP] at h ⊢; obtain ⟨x, h⟩ := h; exact ⟨x, ih _ _ _ _ h⟩
+
+theorem wl_bind {f : Res → Act} (hf : ∀ r, WL (f r) false) :
+    ∀ (a : Act) (l : Bool), WL a l → WL (a.bind f) l := by
+  intro a
+  induction a with
+  | ret r => intro l h; simp at h; subst h; exact hf r
+  | diverge => intro l _; simp [Act.bind]
+  | lock k ih => intro l h; simp only [Act.bind, wl_lock] at h ⊢; exact ⟨h.1, fun c => ih c _ (h.2 c)⟩
+  | tryLock k ih =>
+    intro l h; simp only [Act.bind, wl_tryLock] at h ⊢
+    exact ⟨h.1, fun c => ih _ _ (h.2.1 c), ih _ _ h.2.2⟩
+  | unlock c k ih => intro l h; simp only [Act.bind, wl_unlock] at h ⊢; exact ⟨h.1, ih _ h.2⟩
+  | eff e k ih => intro l h; simp only [Act.bind, wl_eff] at h ⊢; exact ih _ h
+  | askB q k ih => intro l h; simp only [Act.bind, wl_askB] at h ⊢; exact fun x => ih x _ (h x)
+  | askM q k ih => intro l h; simp only [Act.bind, wl_askM] at h ⊢; exact fun x => ih x _ (h x)
+  | askP k ih => intro l h; simp only [Act.bind, wl_askP] at h ⊢; exact fun x => ih x _ (h x)
+
 /-- The programs of the machine: every lock-taking function of kanal, for every choice of its parameters. -/
 inductive FineProg : Act → Prop where
   | observe (f : Chan → Res) : FineProg (Fine.observe f)
@@ -510,6 +562,7 @@ inductive FineProg : Act → Prop where
   | dropRecvFut (x : Ctx) : FineProg (Fine.dropRecvFut x)
   | pollSend (x : Ctx) : FineProg (Fine.pollSend x)
   | pollRecv (x : Ctx) : FineProg (Fine.pollRecv x)
+  | pollNext (x : Ctx) : FineProg (Fine.pollNext x)
 
 theorem fine_wl {t : Act} (h : FineProg t) : WL t false := by
   cases h
@@ -526,6 +579,11 @@ theorem fine_wl {t : Act} (h : FineProg t) : WL t false := by
   · exact wl_dropRecvFut _
   · exact wl_pollSend _
   · exact wl_pollRecv _
+  · rename_i x
+    unfold Fine.pollNext
+    split
+    · simp
+    · exact wl_bind (by intro r; cases r <;> simp) _ _ (wl_pollRecv x)
 
 theorem fine_sections {t : Act} {b p : Chan} (h : FineProg t) (hs : Sec t none b p) : ChanStep b p := by
   cases h with
@@ -560,6 +618,15 @@ theorem fine_sections {t : Act} {b p : Chan} (h : FineProg t) (hs : Sec t none b
     · exact .id _
   | pollRecv x =>
     rcases sec_pollRecv x hs with ⟨slot, rfl⟩ | rfl
+    · exact .recvCS b slot false false x.me
+    · exact .id _
+  | pollNext x =>
+    have hs' : Sec (Fine.pollRecv x) none b p := by
+      unfold Fine.pollNext at hs
+      split at hs
+      · simp at hs
+      · exact sec_bind (by intro r cur b p; cases r <;> simp) _ _ _ _ hs
+    rcases sec_pollRecv x hs' with ⟨slot, rfl⟩ | rfl
     · exact .recvCS b slot false false x.me
     · exact .id _
 
